@@ -3,6 +3,7 @@ package main
 import (
 	"bytes"
 	"reflect"
+	"strconv"
 	"unsafe"
 )
 
@@ -219,4 +220,51 @@ func memRanges(rv reflect.Value) [][2]uintptr {
 	}
 	walk(rv)
 	return out
+}
+
+// badSliceHeaders: every slice reachable from the value must have cap >= len (a
+// decoder that builds slice headers by hand can get this wrong without any
+// element being wrong).
+func badSliceHeaders(rv reflect.Value) string {
+	msg := ""
+	var walk func(rv reflect.Value)
+	walk = func(rv reflect.Value) {
+		if msg != "" {
+			return
+		}
+		switch rv.Kind() {
+		case reflect.Ptr:
+			if !rv.IsNil() {
+				walk(rv.Elem())
+			}
+		case reflect.Slice:
+			if rv.Cap() < rv.Len() {
+				msg = "a decoded slice has len " + strconv.Itoa(rv.Len()) + " but cap " + strconv.Itoa(rv.Cap())
+				return
+			}
+			if rv.Type().Elem().Kind() == reflect.Uint8 {
+				return
+			}
+			for i := 0; i < rv.Len(); i++ {
+				walk(rv.Index(i))
+			}
+		case reflect.Struct:
+			if rv.Type() == timeType {
+				return
+			}
+			for i := 0; i < rv.NumField(); i++ {
+				if rv.Type().Field(i).IsExported() {
+					walk(rv.Field(i))
+				}
+			}
+		case reflect.Map:
+			it := rv.MapRange()
+			for it.Next() {
+				walk(it.Key())
+				walk(it.Value())
+			}
+		}
+	}
+	walk(rv)
+	return msg
 }
